@@ -2,7 +2,7 @@
    fact that what the script is expected to decode to is the signal itself,
    interleaved sample by sample (the layout of the array read_signal returns). *)
 From Coq Require Import ZArith List Bool Lia.
-From Verif Require Import gen.Shorten C13.Model C13.Bits C13.Block C13.Stream.
+From Verif Require Import gen.Shorten C13.Model C13.Bits C13.Block C13.Stream C13.Total.
 Import ListNotations.
 Open Scope Z_scope.
 
@@ -47,4 +47,128 @@ Proof.
     rewrite (flat_map_concat_map _ (map _ _)), map_map, <- flat_map_concat_map.
     apply flat_map_ext_in. intros t _. rewrite map_map. apply map_ext. intros ch.
     symmetry. apply nth_skipn_add.
+Qed.
+
+(* ------------------------------------------------------------------ *)
+(** * The script of a signal decodes to the signal *)
+
+Section Signal.
+Variables (dt : dtype) (h : hdr).
+
+Lemma out_of_app_ctl pend pre rest :
+  (forall it, In it pre -> match it with IBlock _ _ _ => False | _ => True end) ->
+  out_of dt h pend (pre ++ rest) = out_of dt h pend rest.
+Proof.
+  induction pre as [|it pre IH]; intros H; [reflexivity|].
+  simpl. pose proof (H it (or_introl eq_refl)) as Hit.
+  destruct it; try contradiction; apply IH; intros x Hx; apply H; now right.
+Qed.
+
+Lemma out_of_round n : forall chans cs pend rest,
+  chans <> [] -> length cs = length chans ->
+  Z.of_nat (length pend + length chans) = h_nchan h ->
+  Forall (fun ch => (n <= length ch)%nat) chans ->
+  out_of dt h pend (zip_blocks cs chans n ++ rest)
+  = map (out_item dt h) (interleave n (pend ++ map (firstn n) chans)) ++ out_of dt h [] rest.
+Proof.
+  induction chans as [|ch chans IH]; intros cs pend rest Hne Hl Hn Hlen; [congruence|].
+  destruct cs as [|[p resn] cs]; [discriminate|]. simpl in Hl.
+  inversion Hlen as [|? ? Hch Hrest]; subst.
+  cbn [zip_blocks app out_of].
+  destruct chans as [|ch2 chans].
+  - destruct cs; [|discriminate]. cbn [zip_blocks app map].
+    replace (Z.of_nat (length pend) =? h_nchan h - 1) with true
+      by (symmetry; apply Z.eqb_eq; simpl in Hn; lia).
+    rewrite firstn_length. replace (Nat.min n (length ch)) with n by lia. reflexivity.
+  - replace (Z.of_nat (length pend) =? h_nchan h - 1) with false
+      by (symmetry; apply Z.eqb_neq; simpl in Hn; lia).
+    rewrite (IH cs (pend ++ [firstn n ch]) rest); try discriminate; auto.
+    + rewrite <- app_assoc. reflexivity.
+    + rewrite app_length. simpl in *. lia.
+Qed.
+
+(* the expected output of the script of a signal is the signal, interleaved *)
+Lemma out_of_script : forall rs bs chans,
+  chans <> [] -> Z.of_nat (length chans) = h_nchan h ->
+  Forall (fun r => length (r_blocks r) = length chans) rs ->
+  Forall (fun ch => length ch = total_len bs rs) chans ->
+  out_of dt h [] (script_of bs rs chans)
+  = map (out_item dt h) (interleave (total_len bs rs) chans).
+Proof.
+  induction rs as [|r rs IH]; intros bs chans Hne Hn Hr Hlen; [reflexivity|].
+  inversion Hr as [|? ? Hr1 Hr2]; subst.
+  { cbn [script_of total_len]. cbv zeta.
+    set (n := Z.to_nat (round_bs bs r)).
+    rewrite out_of_app_ctl by (intros it Hi; destruct (r_shift r); simpl in Hi; [destruct Hi as [<- | []]|destruct Hi]; exact I).
+    rewrite out_of_app_ctl by (intros it Hi; destruct (r_bs r); simpl in Hi; [destruct Hi as [<- | []]|destruct Hi]; exact I).
+    assert (L1 : Forall (fun ch => (n <= length ch)%nat) chans).
+    { eapply Forall_impl; [|exact Hlen]. intros ch Hch. rewrite Hch. cbn [total_len]. fold n. lia. }
+    rewrite (out_of_round n chans (r_blocks r) [] _ Hne Hr1 ltac:(simpl; lia) L1).
+    rewrite (IH (round_bs bs r) (map (skipn n) chans)).
+    - cbn [app]. rewrite interleave_split, map_app. reflexivity.
+    - destruct chans; [congruence|discriminate].
+    - now rewrite map_length.
+    - eapply Forall_impl; [|exact Hr2]. intros r' Hr'. now rewrite map_length.
+    - apply Forall_map. eapply Forall_impl; [|exact Hlen]. intros ch Hch.
+      rewrite skipn_length, Hch. cbn [total_len]. fold n. lia. }
+Qed.
+
+End Signal.
+
+(* decoding the stream written for a signal returns the signal: samples of all
+   channels at time 0, then at time 1, ... (cast to the requested dtype) *)
+Lemma decode_encode_signal_l dt pad p rs chans bytes :
+  chans <> [] -> Z.of_nat (length chans) = p_nchan p ->
+  Forall (fun r => length (r_blocks r) = length chans) rs ->
+  Forall (fun ch => length ch = total_len (p_bs p) rs) chans ->
+  shn_encode pad p (script_of (p_bs p) rs chans) = Some bytes ->
+  shn_decode dt bytes
+  = Ok (map (out_item dt (hdr_of p)) (interleave (total_len (p_bs p) rs) chans)).
+Proof.
+  intros Hne Hn Hr Hl E.
+  rewrite (decode_encode_l dt pad p _ bytes E). unfold expected.
+  now rewrite out_of_script.
+Qed.
+
+(* with the valid choices spelled out: a stream exists and decodes to the signal *)
+Lemma decode_encode_signal_valid_l dt pad p rs chans :
+  valid_params p = true -> mem (p_ftype p) g_au_types = false ->
+  chans <> [] -> Z.of_nat (length chans) = p_nchan p ->
+  Forall (fun r => length (r_blocks r) = length chans) rs ->
+  Forall (fun ch => length ch = total_len (p_bs p) rs) chans ->
+  valid_items p (p_bs p) 0 O (script_of (p_bs p) rs chans) ->
+  exists bytes,
+    shn_encode pad p (script_of (p_bs p) rs chans) = Some bytes
+    /\ shn_decode dt bytes
+       = Ok (map (out_item dt (hdr_of p)) (interleave (total_len (p_bs p) rs) chans)).
+Proof.
+  intros V Hau Hne Hn Hr Hl VI.
+  destruct (encode_total_l pad p _ V Hau VI) as (bytes & E).
+  exists bytes. split; [exact E|]. now apply (decode_encode_signal_l dt pad).
+Qed.
+
+(* the output cast leaves 16-bit samples alone *)
+Lemma out_item_exact_l dt p v :
+  mem (p_ftype p) g_au_types = false ->
+  (dt = DT_I32 \/ (dt = DT_I16 /\ -32768 <= v < 32768)) ->
+  out_item dt (hdr_of p) v = v.
+Proof.
+  intros Hau H. unfold out_item, converts. cbn [h_ftype hdr_of]. rewrite Hau.
+  destruct H as [-> | [-> Hv]]; cbn [cast]; [reflexivity|].
+  unfold wrap16. rewrite Z.mod_small by lia. lia.
+Qed.
+
+(* hypotheses are satisfiable: a 2-channel signal of 6 samples, blocks of 4 then 2 *)
+Example signal_example :
+  let p := mkParams 2 c_TYPE_S16HL 2 4 0 4 [] in
+  let rs := [mkRound None None [(PDiff 1, 3); (PDiff 0, 4)];
+             mkRound (Some 1) (Some 2) [(PDiff 2, 2); (PZero, 0)]] in
+  let chans := [[10; 12; 15; 11; 8; -6]; [-3; 4; 0; 9; 0; 0]] in
+  valid_params p = true /\ total_len (p_bs p) rs = 6%nat
+  /\ valid_items p (p_bs p) 0 O (script_of (p_bs p) rs chans)
+  /\ interleave 6 chans = [10; -3; 12; 4; 15; 0; 11; 9; 8; 0; -6; 0].
+Proof.
+  cbv zeta. split; [reflexivity|]. split; [reflexivity|]. split; [|reflexivity].
+  unfold valid_items, pred_ok, sample_ok, bnd, B16, next_chan, sumabs; simpl.
+  repeat split; try lia; repeat constructor; try lia; try reflexivity.
 Qed.
